@@ -156,19 +156,20 @@ theorem resolve_scopes (env : Env) (ref : Str) (st : RState) :
 
 theorem scopeOK_kwRef (env : Env) {rec : Rec} (hrec : RecScopeOK rec) (ref inst : Json) :
     ScopeOK (kwRef env rec ref inst) := by
-  refine ⟨fun b st => ?_⟩
-  unfold kwRef
+  refine kwRef_cases (P := ScopeOK) (fun hg hh => ⟨fun b st => ?_⟩) (fun r => ⟨fun b st => ?_⟩)
+    ⟨fun _ _ => rfl⟩ ⟨fun _ _ => rfl⟩ ref
+  · unfold ifTopEmpty; split
+    · exact hg.restore b st
+    · exact hh.restore b st
+  rw [kwRef_str]
+  have h := resolve_scopes env r st
   split
-  · rename_i r
-    have h := resolve_scopes env r st
-    split
-    · rename_i url target st1 heq
-      rw [heq] at h
-      rw [(scopeOK_withScope env url (hrec inst target)).restore b st1]
-      exact h
-    · rename_i heq; rw [heq] at h; exact h
-    · rename_i heq; rw [heq] at h; exact h
-  · rfl
+  · rename_i url target st1 heq
+    rw [heq] at h
+    rw [(scopeOK_withScope env url (hrec inst target)).restore b st1]
+    exact h
+  · rename_i heq; rw [heq] at h; exact h
+  · rename_i heq; rw [heq] at h; exact h
 
 end JS
 
